@@ -59,7 +59,7 @@ def absorb(ctx, r, events, what, viol_sig=None, expect_summary=True):
             ctx.inconc(str(ev.get("msg", ""))[:300])
     if expect_summary and not summaries:
         # the child died before reporting: attribute to the last journaled case if there is one
-        tail = r.tail(3000)
+        tail = r.crash_head(3000)
         last = None
         for ev in events:
             if ev.get("t") == "journal":
